@@ -121,6 +121,16 @@ func (e *FuncEnc) encodeInstr(in ssa.Instruction) {
 	case *ssa.Jump:
 		e.finishBlock(e.curBlock, "true")
 	case *ssa.Return:
+		if n := len(e.inlineStack); n > 0 {
+			var rs []string
+			for _, r := range x.Results {
+				rs = append(rs, e.v(r))
+			}
+			fr := e.inlineStack[n-1]
+			fr.rets = append(fr.rets, inlineRet{reach: e.curReach, st: e.cur, results: rs})
+			e.exit[e.curBlock] = e.cur
+			return
+		}
 		e.encodeReturn(x)
 		e.exit[e.curBlock] = e.cur
 	case *ssa.Go, *ssa.Select, *ssa.Send:
@@ -224,6 +234,7 @@ func (e *FuncEnc) encodeAlloc(x *ssa.Alloc) {
 	s := e.newSym("alloc_"+mangle(x.Comment), "Int")
 	e.assume("true", fmt.Sprintf("(and (> %s 0) (= (akind %s) 0) (= (atime %s) (+ T0 %d)))", s, s, s, e.allocIdx))
 	e.val[x] = s
+	e.freshBufferFacts(x, s)
 	t := x.Type().Underlying().(*types.Pointer).Elem()
 	if e.private[x] {
 		e.privateSyms[x] = s
